@@ -112,7 +112,9 @@ impl<'a> Evaluator<'a> {
             }
             Desc(a) | Ref(a) => self.next(*a).eval(chunk),
             // for aggs, evaluate its children
-            RowCount => Ok(ArrayImpl::new_null(
+            // a window function evaluates to the argument of its aggregate
+            Over([window, _, _]) => self.next(*window).eval(chunk),
+            RowCount | RowNumber => Ok(ArrayImpl::new_null(
                 (0..chunk.cardinality()).map(|_| ()).collect(),
             )),
             Count(a) | Sum(a) | Min(a) | Max(a) | First(a) | Last(a) | CountDistinct(a) => {
